@@ -46,6 +46,16 @@ class ListAlias:
     def __init__(self, elem):
         self.elem = elem
 
+    def __repr__(self):
+        return f"list[{self.elem!r}]"
+
+
+class GenResult:
+    """what a stubbed sub-generator hands to `yield from`: the items it yields and its return value"""
+
+    def __init__(self, value, yields=()):
+        self.value, self.yields = value, list(yields)
+
 
 class _Return(Exception):
     def __init__(self, value):
@@ -346,6 +356,8 @@ class Interp:
         raise AnalysisError(f"minieval: cannot iterate {type(v).__name__} at line {getattr(node, 'lineno', '?')}")
 
     def binop(self, op, a, b, node):
+        if isinstance(a, TypeRef) and callable(a.attrs.get("__binop__")):
+            return a.attrs["__binop__"](type(op).__name__, b)   # (a harness object that defines its own operators)
         if isinstance(a, SymVec) or isinstance(b, SymVec):
             if isinstance(op, (ast.BitAnd, ast.BitOr, ast.BitXor)) and all(isinstance(x, (SymVec, int)) for x in (a, b)):
                 r = _bitop(op, a, b, node)
@@ -545,6 +557,16 @@ class Interp:
             return self.binop(e.op, self.ev(e.left, env), self.ev(e.right, env), e)
         if isinstance(e, (ast.ListComp, ast.GeneratorExp, ast.DictComp)):
             return self.comp(e, env)
+        if isinstance(e, ast.Yield):
+            # a generator is run to its end with None sent in; what it yields is collected
+            self.yields.append(self.ev(e.value, env) if e.value is not None else None)
+            return None
+        if isinstance(e, ast.YieldFrom):
+            g = self.ev(e.value, env)
+            if isinstance(g, GenResult):
+                self.yields.extend(g.yields)
+                return g.value
+            raise AnalysisError(f"minieval: `yield from` of {type(g).__name__}")
         if isinstance(e, ast.Starred):
             raise AnalysisError("minieval: starred expression outside a call / display")
         if isinstance(e, ast.Call):
@@ -721,6 +743,8 @@ class Interp:
                     raise Raised("UnicodeError", e)
             if isinstance(obj, int) and not isinstance(obj, bool) and m == "bit_length" and not args:
                 return obj.bit_length()
+            if isinstance(obj, TypeRef) and obj.name == "dict" and m == "fromkeys" and 1 <= len(args) <= 2 and not kwargs:
+                return {k_: (args[1] if len(args) == 2 else None) for k_ in self.iterate(args[0], e)}
             if isinstance(obj, (TypeRef, NewType)) and callable(obj.attrs.get(m)):
                 return obj.attrs[m](*args, **kwargs)
             raise AnalysisError(f"minieval: method `{m}` of {type(obj).__name__}")
@@ -766,6 +790,10 @@ class Interp:
             return list(zip(*[self.iterate(a, e) for a in args]))
         if name == "range" and args and all(isinstance(a, int) for a in args):
             return list(range(*args))
+        if name in ("reversed", "enumerate") and len(args) == 1 and not kwargs and name not in self.globals and name not in env \
+                and isinstance(args[0], (list, tuple, _View, dict)) and not isinstance(args[0], SymStr):
+            items = self.iterate(args[0], e)
+            return list(reversed(items)) if name == "reversed" else list(enumerate(items))
         if name in ("ord", "chr", "bytes", "bytearray", "min", "max", "sum", "abs", "sorted", "set", "frozenset", "reversed", "enumerate") \
                 and name not in self.globals and name not in env and not kwargs:
             conc = lambda v: isinstance(v, (int, str, bytes, bytearray, bool)) or (  # noqa: E731
@@ -800,7 +828,16 @@ class Interp:
                 return TypeRef("dict")
             if isinstance(v, list):
                 return TypeRef("list")
+            for pt in (bool, int, str, bytes, tuple):
+                if type(v) is pt:
+                    return TypeRef(pt.__name__)
+            if isinstance(v, TypeRef) and "__class__" in v.attrs:
+                return v.attrs["__class__"]
             raise AnalysisError("minieval: type(x)")
+        if isinstance(f, ast.Name):
+            tgt = env.get(name, self.globals.get(name))
+            if isinstance(tgt, TypeRef) and callable(tgt.attrs.get("__call__")):
+                return tgt.attrs["__call__"](*args, **kwargs)
         if name in env and callable(env[name]) and not isinstance(env[name], (TypeRef, NewType)):
             return env[name](*args, **kwargs)   # a callable handed in as an argument
         if name in self.globals and callable(self.globals[name]):
